@@ -27,6 +27,7 @@ type HistOpts struct {
 	Mem          sim.MemOpts
 	InHandOps    int // percent chance per decision point of a membership/top-up op during the hand
 	InHandMem    sim.MemOpts
+	ExpectStalls bool                         // stalls are part of the property (fault injection): do not give up on them
 	NoRearm      bool                         // never re-arm the gate from outside (C08: "without any further external call")
 	RearmOnLeave bool                         // re-arm the gate from outside when a gate participant left (otherwise wait for the 2 s timeout)
 	Prepare      func(s *sim.Sim)             // after table creation, before the first hand
@@ -140,10 +141,14 @@ func RunHistoryCfg(c *run.Ctx, cfg sim.Config, o HistOpts, hooks sim.Hooks, onOp
 			}
 			s.Label("stall: " + r)
 			c.Ch.Note("STALL: %s", s.Stall)
+			if dir := os.Getenv("VERIF_STALL_DIR"); dir != "" {
+				os.MkdirAll(dir, 0o755)
+				c.Ch.Script(c.Prop, c.Check, "stall", s.Stall).Save(fmt.Sprintf("%s/stall-%s-%d.json", dir, c.Check, stalls))
+			}
 			if o.AfterHand != nil && h.SettledT != nil {
 				o.AfterHand(s, h)
 			}
-			if stalls > 8 {
+			if stalls > 8 && !o.ExpectStalls {
 				c.Inconclusive("engine stalled repeatedly, last: %s", s.Stall)
 			}
 			return s
